@@ -122,3 +122,13 @@ claim("C24",
       "forbid/require reachability rules in the SSA dataflow (may-facts at dispatch and I/O sites), who-may-call/send scans, extent provenance",
       "Effectiveness of pruning: no file-job dispatch from the negative file-level edge or an empty prefilter result; block-filter I/O only with bloom conditions and sections to read; a block whose filters were read is scanned only on the survived edge; row data read only by the block scan fed only from the survivor loop; scan and filter reads use the block's own declared extents after validation. Request counts on real layouts are left to the existing tests.",
       TB)
+
+claim("C19",
+      "range checker: taint from decoded integers and metadata framing fields to allocation sizes and slice bounds, with dominating-guard search and sign analysis through +/− (E7); SSA path rules for verify-before-parse; comparison-table extraction for validate",
+      "Clean failure on malformed files through structure: every decoded length / framing field reaching a make, getScanBuffer or slice bound in the read path is bounded in the needed direction(s) by dominating comparisons (framing fields at allocations may take their upper bound from the validated-metadata facts); footer JSON, filter sections and row data are parsed/decompressed only after their CRC checks; ReadFileMetadata returns metadata only after CRC, version and validate; validate and validateFilterSection bound each framing field from below and, by subtraction, from above; planning/validation precedes any filter I/O; decompression is exact-length through io.ReadFull; failures are recorded (C14.R2). Third-party decoders' robustness is not decided; UncompressedSize is outside the quantified framing fields (observation in DESIGN.md).",
+      TB)
+
+claim("C25",
+      "go/types shape checks of the exported query types, nil-vs-empty comparison scan, abstract interpretation (E5) of the flatten functions, And/Or constructors and builder call sequences",
+      "Expression trees and serialization through structure and abstract runs: every exported query type round-trips field for field (exported fields, no json:\"-\", no custom marshalers, omitempty only where nil/empty are indistinguishable — no evaluator compares such a slice with nil); each flatten function inlines exactly the children of same-type, condition-less nodes and keeps every other child in order; And/Or wrap the flattened list; builder sequences (implicit AND at Build, AND with the explicit tree after Match, MatchPrefilter installs the tree) produce the expected trees. The Field-then-Match discard is a semantic question and not claimed.",
+      TB + " Abstract runs cover the listed shapes only.")
